@@ -7,8 +7,8 @@ from ..engine.effects import typed_writes
 from ..engine.match import Spec, find_calls, loop_doms, require_call, residual
 from ..engine.report import Check
 from ..engine.terms import C, show
-from ..engine.walker import swallowed_by
-from .common import CONS, short
+from ..engine.walker import after_completion, swallowed_by
+from .common import CONS, functions_mentioning, short
 
 CM = "skepticoin.networking.manager.ChainManager"
 
@@ -90,9 +90,8 @@ def r13_2(ck: Check) -> None:
             ck.violated("R13.2", "%s writes ChainManager.%s" % (short(w.func), attr),
                         "a foreign writer of pool / served state bypasses admission and eviction (%s)" % w.kind, w.ev.loc)
     # the pool list escapes through get_state(): its users must not mutate it
-    for fi in ck.repo.all_functions():
-        src = ck.repo.src(fi.node)
-        if "get_state" not in src or fi.qualname == CM + ".get_state":
+    for fi in functions_mentioning(ck, "get_state"):
+        if fi.qualname == CM + ".get_state":
             continue
         s = ck.summ(fi.qualname, 0)
         gs = [e for e in s.events if e.kind == "call" and CM + ".get_state" in e.targets]
@@ -109,8 +108,8 @@ def r13_2(ck: Check) -> None:
             ck.ok("R13.2", construct, "", gs[0].loc)
     # all callers of set_coinstate go through the setter (count)
     n = 0
-    for fi in ck.repo.all_functions():
-        if "set_coinstate" in ck.repo.src(fi.node):
+    for fi in functions_mentioning(ck, "set_coinstate"):
+        if True:
             s = ck.summ(fi.qualname, 0)
             n += len([e for e in s.events if e.kind == "call" and not e.chain and CM + ".set_coinstate" in e.targets])
     ck.expect_count("R13.2", "set_coinstate call sites", n, 5)
@@ -156,7 +155,7 @@ def r13_3(ck: Check) -> None:
     trues = [r for r in rets if r.term == C(True)]
     falses = [r for r in rets if r.term == C(False)]
     construct = "is_valid(t): True only after validation against the state just stored completed; False in the rejection handler"
-    ok = (len(calls) == 1 and len(trues) == 1 and calls[0].seq < trues[0].seq and calls[0].tries and calls[0].tries == trues[0].tries
+    ok = (len(calls) == 1 and len(trues) == 1 and after_completion(calls[0], trues[0])
           and not any(c.prov == "handler" for c in trues[0].pc) and all(any(c.prov == "handler" for c in r.pc) for r in falses)
           and len(trues) + len(falses) == len(rets))
     if ok:
@@ -164,6 +163,11 @@ def r13_3(ck: Check) -> None:
     else:
         ck.violated("R13.3", construct, "returns %s; validator calls %s%s" % ([r.describe() for r in rets], [c.describe() for c in calls],
                                                                               ("; near: " + near[0][1]) if near else ""), s3.fi.loc)
+
+
+def cset(e) -> set:   # type: ignore
+    from ..engine.terms import conjuncts
+    return {x for c in e.pc for x in conjuncts(c.term)}
 
 
 def r13_4(ck: Check) -> None:
@@ -178,7 +182,7 @@ def r13_4(ck: Check) -> None:
     bc = [e for e in summ.events if e.kind == "call" and "skepticoin.networking.manager.NetworkManager.broadcast_transaction" in e.targets]
     construct = "handle_transaction_received: known transactions are dropped; relay only on the true branch of add_transaction_to_pool(tx)"
     ok = (len(add) == 1 and len(bc) == 1 and add[0].term[2] == (tx,) and bc[0].term[2] == (tx,)
-          and [c.term for c in add[0].pc] == [dup] and [c.term for c in bc[0].pc] == [dup, add[0].term])
+          and cset(add[0]) == {dup} and cset(bc[0]) == {dup, add[0].term})
     if ok:
         ck.ok("R13.4", construct, "", summ.fi.loc)
     else:
